@@ -10,12 +10,12 @@ pub fn def() -> PropDef {
     PropDef {
         id: "C02",
         level: "exploration",
-        rule: "seq: generated histories (<= 60 ops over add, delete_term(uid|group), delete_query(range|boolean), run(batch), delete_all, commit, prepare+payload+commit, prepare+abort, rollback, merge(subset), wait_merging_threads, drop+reopen writer, reopen Index, gc) x configuration (1..8 threads, flush-every-N hook, merge policy, sorted/unsorted, Ram/Mmap/Sim directory), executed against tantivy and a pure sequential model; after EVERY commit/abort/rollback/merge/reopen a fresh searcher must equal the model (every uid once; stored, fast and inverted fields intact) and the opstamp laws must hold. Non-trivial = the history has a delete hitting a document added in the same transaction, or a rollback/abort after uncommitted work, or >= 2 commits with a merge between them, or >= 2 threads producing >= 2 segments in one transaction; distinct by hash(history, cfg). producers: 2-4 threads share &IndexWriter with disjoint uid/group spaces, each producer's final content must equal the sequential replay of its own program. shared_keys: 2-4 producers add to and delete by the SAME three group terms (single calls and run() batches, incl. delete-then-add upserts), held at the stamped/before-send pause points; intervals on a logical clock; the committed content must satisfy the necessary conditions of linearizability per key (a document whose add returned before a delete was called is gone; a missing document has a delete not entirely before its add; no survivor precedes a dead document of the same key), opstamps unique and ordered like real time, batch opstamps contiguous.",
+        rule: "seq: generated histories (<= 60 ops over add, delete_term(uid|group), delete_query(range|boolean), run(batch), delete_all, commit, prepare+payload+commit, prepare+abort, rollback, merge(subset), wait_merging_threads, drop+reopen writer, reopen Index, gc) x configuration (1..8 threads, flush-every-N hook, merge policy, sorted/unsorted, Ram/Mmap/Sim directory), executed against tantivy and a pure sequential model; after EVERY commit/abort/rollback/merge/reopen a fresh searcher must equal the model (every uid once; stored, fast and inverted fields intact) and the opstamp laws must hold. Non-trivial = the history has a delete hitting a document added in the same transaction, or a rollback/abort after uncommitted work, or >= 2 commits with a merge between them, or >= 2 threads producing >= 2 segments in one transaction; distinct by hash(history, cfg). producers: 2-4 threads share &IndexWriter with disjoint uid/group spaces, each producer's final content must equal the sequential replay of its own program. shared_keys: 2-4 producers add to and delete by the SAME three group terms (single calls and run() batches, incl. delete-then-add upserts), held at the stamped/before-send pause points; intervals on a logical clock; the committed content must satisfy the necessary conditions of linearizability per key (a document whose add returned before a delete was called is gone; a missing document has a delete not entirely before its add; no survivor precedes a dead document of the same key), opstamps unique and ordered like real time, batch opstamps contiguous. late_delete: rounds of (a few adds cut into several segments under an aggressive merge policy, prepare_commit + commit_future, a delete_term stamped while the commit is still queued behind merge bookkeeping, wait), then wait_merging_threads: the delete belongs to the NEXT transaction, so the document stays visible until the next commit whatever merge was scheduled in between; non-trivial = a late delete hit a live document while >= 2 segments were uncommitted.",
         assumptions: vec![
             "worker / updater / merge thread interleavings are those the OS produces, steered by the flush-every-N hook; the verdict never depends on them",
             "documents: uid (u64 fast+indexed+stored), group (raw string), body (text), num (i64 fast+indexed+stored)",
         ],
-        subs: vec![Box::new(Seq), Box::new(Producers), Box::new(super::c02_shared::Shared)],
+        subs: vec![Box::new(Seq), Box::new(Producers), Box::new(super::c02_shared::Shared), Box::new(LateDelete)],
     }
 }
 
@@ -126,5 +126,75 @@ impl Sub for Producers {
     }
     fn run(&self, c: &ProducersCase, cx: &Ctx) -> CaseResult {
         crate::props::c02_producers::run(c, cx)
+    }
+}
+
+// ------------------------------------------------------------------------------------------------
+/// Rounds of (adds; prepare_commit + commit_future; delete_term stamped while the commit task is still queued; wait),
+/// under an aggressive merge policy: a merge of still-uncommitted segments scheduled between the prepared opstamp and
+/// the execution of the commit task must not publish the late delete together with this commit.
+#[derive(Clone, Debug, Serialize, Deserialize)]
+pub struct LateDeleteCase {
+    pub cfg: HistCfg,
+    /// per round: the adds, the raw selector of the late delete, whether merges are awaited after the round
+    pub rounds: Vec<(Vec<AddSpec>, u16, bool)>,
+}
+pub struct LateDelete;
+impl Sub for LateDelete {
+    type Case = LateDeleteCase;
+    fn name(&self) -> &'static str {
+        "late_delete"
+    }
+    fn cases(&self, tier: Tier) -> u32 {
+        tier.pick(640, 12000)
+    }
+    fn shards(&self, _t: Tier) -> usize {
+        8
+    }
+    fn max_shrink_iters(&self) -> u32 {
+        200
+    }
+    fn strategy(&self, _tier: Tier) -> BoxedStrategy<LateDeleteCase> {
+        let round = (prop::collection::vec(add_strategy(), 2..9), any::<u16>(), prop::bool::weighted(0.5));
+        (2u8..=4, 1u16..=2, 2u8..4, prop::sample::select(&[DirKind::Ram, DirKind::Sim][..]), prop::collection::vec(round, 2..9))
+            .prop_map(|(threads, flush_every, min_segs, dir, rounds)| LateDeleteCase {
+                cfg: HistCfg { threads, flush_every, policy: Policy::LogSmall(min_segs), sorted: None, dir, tiny_blocks: false, short_writes: false },
+                rounds,
+            })
+            .boxed()
+    }
+    fn mandatory_labels(&self, _t: Tier) -> Vec<&'static str> {
+        vec!["late_delete_hit", "merge", "segments>=3"]
+    }
+    fn run(&self, c: &LateDeleteCase, cx: &Ctx) -> CaseResult {
+        let mut env = Env::new(c.cfg.clone())?;
+        env.check_quiescence = false;
+        let mut hits = 0;
+        for (adds, raw, wait) in &c.rounds {
+            for a in adds {
+                env.apply(&Op::Add(a.clone()), cx)?;
+            }
+            let before = env.pending_len();
+            env.apply(&Op::CommitThenDelete(*raw), cx)?;
+            if env.pending_len() < before {
+                hits += 1;
+            }
+            if *wait {
+                // the merges in flight end here; their outcome is verified against the model
+                env.apply(&Op::WaitMerges, cx)?;
+            }
+        }
+        env.apply(&Op::WaitMerges, cx)?;
+        env.finish(cx)?;
+        let merged = env.largest_committed_segment()? > c.cfg.flush_every as u32;
+        let st = &env.stats;
+        cx.label_if(hits > 0, "late_delete_hit");
+        cx.label_if(merged, "merge");
+        cx.label_if(st.max_segments >= 3, "segments>=3");
+        if hits > 0 && merged {
+            cx.nontrivial(crate::engine::fnv(&serde_json::to_vec(c).unwrap()));
+        }
+        cx.sample(|| json!({"sub": "late_delete", "cfg": c.cfg, "rounds": c.rounds.len(), "late_delete_hits": hits, "policy_merged": merged}));
+        Ok(())
     }
 }
